@@ -143,11 +143,12 @@ def project_runs(ctx):
     rev = {os.path.basename(n): 0.03 * (len(sqls) - i) for i, n in enumerate(sqls)}
     rnd = {os.path.basename(n): rng.choice([0, 0, 0.1, 0.3]) for n in sqls}
     runs = [("project", "lint", 1, None, ["."]), ("project", "fix", 1, None, ["."]),
-            ("project", "lint", 1, None, rdirs), ("project", "lint", 1, None, sdirs), ("project", "lint", 1, None, sfiles),
-            ("project", "lint", 2, rev, ["."]), ("project", "lint", 4, rnd, rdirs), ("project", "lint", 2, rnd, sfiles),
+            ("project", "lint", 1, None, rdirs), ("project", "lint", 1, None, sfiles),
+            ("project", "lint", 2, rev, ["."]), ("project", "lint", 4, rnd, rdirs),
             ("project", "fix", 1, None, rdirs), ("project", "fix", 2, rev, ["."]), ("project", "fix", 4, rnd, sfiles)]
     if ctx.tier == "thorough":
-        runs += [("project", "fix", 1, None, sdirs), ("project", "format", 1, None, ["."]), ("project", "format", 2, rnd, rdirs)]
+        runs += [("project", "lint", 1, None, sdirs), ("project", "lint", 2, rnd, sfiles),
+                 ("project", "fix", 1, None, sdirs), ("project", "format", 1, None, ["."]), ("project", "format", 2, rnd, rdirs)]
         for _ in range(6):
             p2 = list(rng.choice([dirs, sqls]))
             rng.shuffle(p2)
